@@ -1,2 +1,16 @@
-From Tramp Require Import Model.Base Model.Sys Props.C03.
-Print Assumptions C03_placeholder.
+From Tramp Require Import Model.Base Model.Fee Model.Classify Model.Node Model.Provider Model.Sys.
+From Tramp Require Import Proofs.SysBasics Proofs.EntryProofs Proofs.SysEntry Proofs.SysShape Proofs.SysTheorems Proofs.SysTimers Proofs.SysReach Props.C03.
+Check C03_pay_covered : forall c s ev cid b am mf md rt,
+  reachable c s -> In (OCall cid (QPay b am mf md rt)) (snd (step c s ev)) ->
+  exists en, entry_ (pl s) = Some en /\ entry_ (pl (fst (step c s ev))) = Some en /\
+    e_deliver en + fee_base (pol c) + e_deliver en * fee_ppm (pol c) / 1000000 <= sum_amt (listeners en) /\
+    mf <= sum_amt (listeners en) - e_deliver en /\
+    am = match e_inv_amount en with Some _ => None | None => Some (e_deliver en) end /\
+    b = e_blob en /\ rt = retry_for c /\ md <= pol_delta (pol c) /\
+    resps (snd (step c s ev)) = [].
+Check C03_held_until_fate : forall c s ev i x k a g,
+  reachable c s -> nth_error (lcs (pl s)) i = Some x -> l_pc x = PPay k a g ->
+  resps (snd (step c s ev)) <> [] -> exists sel, ev = EvDeliver k sel.
+Print Assumptions C03_pay_covered.
+Print Assumptions C03_held_until_fate.
+Print Assumptions C03_received_is_saturated_sum.
